@@ -258,6 +258,51 @@ theorem C06_and_or_strict_engine_false : ¬ C06_and_or_strict (N := N) Cfg.engin
   have := h false [.ok (some true)] [] .na (by intro x hx; simp at hx; exact ⟨_, hx⟩)
   simp [Cfg.engine, logicalFold] at this
 
+/-! ### text elements of array operands (finding F06d, known) -/
+
+/-- the full statement: a text element of an array operand of an arithmetic operator is coerced
+    exactly like a scalar text operand (so that `x op range` is, element by element, `x op cell`) -/
+def C06_elem_coercion_uniform : Prop :=
+  ∀ (N : Type) (O : NumOps N) (s : String), elemToNumber O (.str s) = toNumber O (.str s)
+
+/-- it holds exactly for the instances whose two text recognisers coincide … -/
+theorem C06_partial_elem_coercion (h : ∀ s, O.ofTextElem s = O.ofText s) (v : Val N) :
+    elemToNumber O v = toNumber O v := by
+  cases v <;> simp [elemToNumber, toNumber, h]
+
+/-- … and the pinned engine's do not (`" 7 "`, `"5%"`, `"$3"` are numbers as scalar operands,
+    `#VALUE!` as elements: arithmetic.rs::to_f64 vs cast.rs::cast_number) -/
+theorem C06_elem_coercion_full_false : ¬ C06_elem_coercion_uniform := by
+  intro h
+  have := h Nat ⟨0, 1, (· + ·), (· - ·), (· * ·), (· / ·), (· ^ ·), id, id, id, fun a _ => a,
+    (· == 0), compare, Nat.min, Nat.max, fun _ => true, id, fun _ => some 0, fun _ => none, toString⟩ ""
+  simp [elemToNumber, toNumber] at this
+
+/-! ### overflow inside a formula (finding F06e, known) -/
+
+/-- the full statement: an arithmetic operator whose result is not finite yields an error -/
+def C06_overflow_is_error : Prop :=
+  ∀ (N : Type) (O : NumOps N) (op : BinOp) (a b : N),
+    isArith op = true → (∀ x, arith O op a b = .ok x → O.finite x = true)
+
+/-- the engine (and therefore the faithful evaluator) hands the non-finite number on as a number:
+    `ISNUMBER(1E+200*1E+200)` is TRUE, `1=1E+200*1E+200` is FALSE; only the value finally stored in
+    the cell becomes `#NUM!` (`stored`, C08) -/
+theorem C06_overflow_full_false : ¬ C06_overflow_is_error := by
+  intro h
+  have := h (Option Nat) ⟨some 0, some 1, fun _ _ => none, fun _ _ => none, fun _ _ => none, fun _ _ => none,
+    fun _ _ => none, id, id, id, fun a _ => a, fun x => x == some 0, fun _ _ => .eq, fun a _ => a, fun a _ => a,
+    Option.isSome, some, fun _ => none, fun _ => none, fun _ => ""⟩ .mul (some 1) (some 1) rfl none rfl
+  simp at this
+
+/-- what is guaranteed: the value shown by the cell is never a non-finite number -/
+theorem C06_partial_stored_finite (hz : O.finite O.zero = true) (v : Val N) :
+    match stored O v with | .num n => O.finite n = true | _ => True := by
+  cases v with
+  | num n => cases h : O.finite n <;> simp [stored, h]
+  | empty => simpa [stored] using hz
+  | _ => simp [stored]
+
 /-! ### totality and locality -/
 
 /-- **eval_total**: entering any formula of the core language yields a value or an array — never a
